@@ -98,7 +98,13 @@ def run_for_property(ctx, prop: str):
     if not vs:
         ctx.info("self-test: no variants registered for this property")
         return
-    res = run_variants(vs)
+    res = run_variants(vs, jobs=int(os.environ.get("VERIF_SELFTEST_JOBS", "8")))
+    # a variant that failed while the machine was busy (a time limit, a thread that could not be started) is tried once more,
+    # alone; a variant that fails for a reason of its own fails again
+    retry = {r["id"] for r in res if r["status"] == "FAIL"}
+    if retry:
+        again = {r["id"]: r for r in run_variants([v for v in vs if v["id"] in retry], jobs=1)}
+        res = [again.get(r["id"], r) for r in res]
     fails = [r for r in res if r["status"] == "FAIL"]
     na = [r for r in res if r["status"] in ("n/a", "broken-variant")]
     ctx.extra["selftest"] = {
